@@ -274,6 +274,11 @@ type ReplayFile struct {
 	// crash-class violations that need the preceding runs of the same worker process
 	ShareOffset int `json:"share_offset,omitempty"`
 	ShareStride int `json:"share_stride,omitempty"`
+	// NeedsShare: the violation did not show again when its own tape was re-executed in the
+	// same process, i.e. it depends on library state that survives from earlier runs of the
+	// same worker process (a package-level cache, a pooled object in a particular state).
+	// Verification and replay re-execute the worker's share of run indices up to this run.
+	NeedsShare bool `json:"needs_share,omitempty"`
 }
 
 // tapeLess orders tapes by (total length, sum of values): shrinking only ever accepts a
